@@ -49,7 +49,7 @@ def rawSetList (cfg : Cfg) (f : Forest) (m : Meta) (its : Items) (key : Int) (in
         | _, _ => sameAtom ve old
       if same then .ok (f, false) else
       let r := evalVE cfg f none (some m.id) false m.part (m.path ++ [Key.i index]) ve
-      let f2 := r.1.mapAt m.id (fun _ xs => setKey (Key.i pos) r.2 xs)
+      let f2 := r.1.mapAt m.id (storeKey (Key.i pos) (Key.i index) r.2)
       -- detach the old value: parent only (list.py:426-428)
       .ok (f2.addRoot (old.setParent none), true)
   else if index < len then
@@ -60,7 +60,7 @@ def rawSetList (cfg : Cfg) (f : Forest) (m : Meta) (its : Items) (key : Int) (in
           if cfg.reindexOnMutate then reindex m' ys else ys), true)
   else
     let r := evalVE cfg f none (some m.id) false m.part (m.path ++ [Key.i index]) ve
-    .ok (r.1.mapAt m.id (fun _ xs => renumber (xs ++ [(Key.i 0, r.2)])), true)
+    .ok (r.1.mapAt m.id (fun m' xs => xs ++ [(Key.i index, r.2.setPath (m'.path ++ [Key.i index]))]), true)
 
 def childNodes (its : Items) : List Tree := (its.map (·.2)).filter Tree.isNode
 
@@ -86,9 +86,6 @@ def rawSetDict (cfg : Cfg) (f : Forest) (m : Meta) (its : Items) (key : Key) (ve
   let detached : Option Tree := match old with
     | some (.node om oits) => some (((Tree.node om oits).setParent none).setPath [])
     | _ => none
-  let f1 := match detached with
-    | some d => f.mapAt m.id (fun _ xs => setKey key d xs)
-    | none => f
   let isObj := isObjKind m.kind
   if ve.isMissing && !isObj then
     -- (the slot still holds the detached old value at this point; erasing the key from the
@@ -98,8 +95,8 @@ def rawSetDict (cfg : Cfg) (f : Forest) (m : Meta) (its : Items) (key : Key) (ve
     else .ok (f, false)
   else
     let ve' := if ve.isMissing then VE.atom .none else ve       -- field default
-    let r := evalVE cfg f1 (detached.bind Tree.id?) (some m.id) isObj m.part (m.path ++ [key]) ve'
-    let f3 := r.1.mapAt m.id (fun _ xs => setKey key r.2 xs)
+    let r := evalVE cfg f (detached.bind Tree.id?) (some m.id) isObj m.part (m.path ++ [key]) ve'
+    let f3 := r.1.mapAt m.id (storeKey key key r.2)
     -- the old value becomes a root of its own unless the new value took it in
     let consumed := match detached.bind Tree.id? with
       | some oid => r.2.ids.contains oid
